@@ -12,6 +12,7 @@ GStep == /\ Len(h) < D /\ UNCHANGED done
                              \/ SetEnabled(n, FALSE) /\ St("disable", n)
                              \/ ObjSetEnabled(n, TRUE) /\ en[n] = FALSE /\ St("objenable", n)
                              \/ ObjSetEnabled(n, FALSE) /\ en[n] = TRUE /\ St("objdisable", n)
+                             \/ PreRemove(n) /\ n \in InChain /\ St("preremove", n)
 GEnd == Len(h) = D /\ ~done /\ done' = TRUE /\ UNCHANGED <<vars, h>>
 GSpec == GInit /\ [][GStep \/ GEnd]_gvars
 Dump == done => PrintT(<<"BEH", ToJson(h)>>)
